@@ -276,6 +276,22 @@ def draw_convex(rng, family=None, n=None, constrained=True, bounds=True, sense=N
                     d["lb"] = min(xs[nm] for nm in vnames) - 3.0
     D = R.Decls(decls)
 
+    # ---- no linearly dependent active set (constraints *and* bounds) --------
+    # x[1] <= c as a constraint next to the active declared bound x[1] >= c pins the coordinate between two inequalities: the feasible
+    # set has no interior and the multipliers are not unique, so where an interior-point run of SciPy stops is a matter of round-off
+    # (met in the thorough tier, seed 3: the direct run itself ended 5e-9 or 3e-6 above f* depending on the start).  Drawn again.
+    rows_ = []
+    for c in cons:
+        if c.get("active"):
+            jc, _ = R.ref_jet(D, c["g"], names, xs, order=1)
+            rows_.append([float(v) for v in jc.g])
+    for nm, b_ in binfo.items():
+        if b_[2]:
+            rows_.append([1.0 if k_ == idx[nm] else 0.0 for k_ in range(N)])
+    if len(rows_) >= 2 and np.linalg.matrix_rank(np.array(rows_), tol=1e-9) < len(rows_):
+        return draw_convex(rng, family=family, n=n, constrained=constrained, bounds=bounds, sense=sense, scalars=scalars,
+                           simple_constraints_only=simple_constraints_only)
+
     # ---- the linear term ----------------------------------------------------
     j0, _ = R.ref_jet(D, f0, names, xs, order=1)
     g = -np.array(j0.g, dtype=float)
